@@ -360,8 +360,7 @@ Definition serve_envoy (fx : fixes) (rules : list rule) (dflt : bool) (host raw 
     has no '#'.  If it does not parse (malformed escape) the code AS IT
     before d3f6cd7 silently fell back to the target of the proxy's own request (finding
     C08-F6); [fx6] = with that fix: the value is taken as it is, like the Envoy entry
-    does.  The query is re-encoded from the parsed
-    values (url.Values.Encode: sorted, unparsable settings dropped). *)
+    does.  The query is taken as sent (since f446e16). *)
 Definition ctl_byte (c : ascii) : bool := (nb c <? 32)%N || (nb c =? 127)%N.
 
 Fixpoint has_ctl (s : string) : bool :=
@@ -375,7 +374,7 @@ Definition view_xfu (fx6 : bool) (host own raw query : string) : option hurl :=
   if has_ctl raw || has_ctl query then None   (* net/http refuses the header field: 400 *)
   else match set_path raw with
        | None => fallback
-       | Some (p, rp) => Some (view_of host p rp (values_encode (fst (parse_query query))))
+       | Some (p, rp) => Some (view_of host p rp query)
        end.
 
 Definition serve_xfu (fx : fixes) (rules : list rule) (dflt : bool) (host own raw query : string) : outcome :=
